@@ -39,7 +39,7 @@ CHECKS = {
                         "integer-valued delays in the lockstep histories; dyadic rationals in the kernel differential"],
     },
     "C06": {
-        "modules": ["p_c06r"],
+        "modules": ["p_c06r", "p_c06m"],
         "rule": "retry: seeded scenarios as C05 plus 0-2 cancel() calls per future at random virtual delays / after k delegate "
                 "submissions, from separate threads; every history replayed on Model/Retry.v; distinct = distinct event traces; "
                 "non-trivial = a cancel() call was issued and a preemption occurred",
@@ -158,5 +158,15 @@ CHECKS = {
                 "of finished futures are dead while the executor lives on, pending futures are completed after the drop, the worker thread "
                 "exits; non-trivial = a preemption occurred",
         "assumptions": ["PARTIAL: GC/finalisation timing is CPython's; the worker-loop protocol is proved on Model/Refs.v"],
+    },
+    "C02": {
+        "modules": ["p_c02m", "p_c02c"],
+        "rule": "library futures: the C13 scenario family (MapFuture/FlatMapFuture over environment futures; done-callbacks that may raise, "
+                "added before/after completion; 0-2 cancels) plus 0-3 threads blocked in result()/exception()/wait()/as_completed() with a "
+                "virtual timeout; combinator outputs: the C14/C15 family plus 1-3 waiters; every history replayed on Model/MapFut.v / "
+                "Model/Comb.v; monitor: outcome seen by every callback = final outcome, callbacks exactly once and only when done, cancel() "
+                "bool semantics, waiters released at the virtual instant of completion (any kind, incl. cancellation); non-trivial = a "
+                "cancel or add_done_callback call and a preemption",
+        "assumptions": ["entry points not driven here (retry/poll/throttle futures) are covered by their own machines' protocol events"],
     },
 }
